@@ -175,8 +175,9 @@ class DIMSEMessage(object):
 
     @data_set.setter
     def data_set(self, value):
-        if value:
-            self.command_set.CommandDataSetType = 0x0001
+        # Flag follows the dataset in both directions: message object may be sent again
+        # after its dataset was removed (or replaced with an empty one).
+        self.command_set.CommandDataSetType = 0x0001 if value else NO_DATASET
         self._data_set = value
 
     def encode(self, pc_id, max_pdu_length):
